@@ -155,7 +155,8 @@ def render_ini(options, section=b"snoopy"):
     """options: list of (key bytes, value bytes)."""
     lines = [b"[" + section + b"]"]
     for k, v in options:
-        lines.append(k + b" = " + v)
+        # a value starting with ';' directly after "= " would be an inline comment: no blank then
+        lines.append(k + (b"=" if v[:1] == b";" else b" = ") + v)
     return b"\n".join(lines) + b"\n"
 
 
